@@ -4,6 +4,7 @@ import (
 	"fmt"
 	"go/types"
 	"math/big"
+	"regexp"
 	"sort"
 	"strings"
 )
@@ -219,7 +220,21 @@ func shortPkg(p string) string {
 
 func typeQualifier(p *types.Package) string { return shortPkg(p.Path()) }
 
-func typeStr(t types.Type) string { return types.TypeString(t, typeQualifier) }
+var aliasByte = regexp.MustCompile(`\bbyte\b`)
+var aliasRune = regexp.MustCompile(`\brune\b`)
+
+// typeStr renders a type for heap/sort names; the universe aliases byte/rune are normalised so that identical
+// types always share one heap.
+func typeStr(t types.Type) string {
+	s := types.TypeString(t, typeQualifier)
+	if strings.Contains(s, "byte") {
+		s = aliasByte.ReplaceAllString(s, "uint8")
+	}
+	if strings.Contains(s, "rune") {
+		s = aliasRune.ReplaceAllString(s, "int32")
+	}
+	return s
+}
 
 func isBigIntPtr(t types.Type) bool {
 	p, ok := t.Underlying().(*types.Pointer)
